@@ -40,6 +40,7 @@ EXTRA_STATIC = [
     # an element designator after a string that initialised the whole array (first, last, beyond the literal)
     "struct { char s[4]; int y; } es96 = { .s = \"abc\", .s[3] = 'x', .y = 2 };", "struct { char s[4]; int y; } es97 = { .s = \"abc\", .s[0] = 'x', .y = 2 };", "struct { char s[8]; } es98 = { .s = \"ab\", .s[7] = 1, .s[1] = 'z' };",
     'struct { unsigned short w[3]; char c; } es99 = { .w = u"ab", .w[2] = 7, .c = 1 };', 'char es100[2][4] = { [1] = "abc", [1][3] = 1, [0][3] = 2, [0] = "x" };',
+    'struct { unsigned w[10]; int k; } es101 = { .w = U"xyz", .w[8] = 5, .k = 1 };', 'struct { unsigned short h[9]; } es102 = { .h = u"ab", .h[7] = 9, .h[3] = 1 };', "struct { char c[12]; } es103 = { .c = \"hi\", .c[11] = 'z' };",
     # designators that pass through anonymous members, followed by positional initialisers
     'struct { int a; struct { int b, c; }; int d; int e; } es81 = { .b = 1, 2, 3 };', 'struct { int a; struct { int b, c; }; int d; int e; } es82 = { 5, .c = 1, 3 };',
     'struct { int a; union { int b; char c; }; int d; } es83 = { .c = 1, 2 };', 'struct { struct { struct { int x, y; }; int z; }; int w; } es84 = { .y = 1, 2, 3 };',
